@@ -219,6 +219,68 @@ pub fn k8(dir: &str, thorough: bool, seed: u64) {
         let _ = std::fs::remove_file(&path);
         let _ = std::fs::remove_file(&p2);
     }
+    // archives written by the library's own analysis routine (`analyse_formulae`, the body of the command-line tool): one
+    // entry per formula LINE — also when consecutive lines are equal or preprocess to the same tree — and entry i is the set
+    // of line i
+    let nr = if thorough { 60 } else { 8 };
+    for i in 0..nr {
+        let (name, aeon) = NETWORKS[rng.below(NETWORKS.len())];
+        let Ok(xg0) = Xg::new(name, aeon, 2) else { continue };
+        if xg0.n_v > 3 {
+            continue;
+        }
+        let a0 = xg0.var_names[0].clone();
+        let mut formulae: Vec<String> = Vec::new();
+        for _ in 0..(1 + rng.below(2)) {
+            let mut spec = eval_spec(&xg0, false);
+            spec.vars.truncate(2);
+            let sz = 2 + rng.below(5);
+            let t = rand_tree(&mut rng, &spec, sz, &mut Vec::new(), true);
+            if biodivine_hctl_model_checker::preprocessing::parser::parse_and_minimize_hctl_formula(xg0.graph.symbolic_context(), &t.to_string()).is_ok() {
+                formulae.push(t.to_string());
+            }
+        }
+        formulae.push(format!("!{{x}}: AX ({{x}} | {a0})"));
+        match i % 3 {
+            0 => formulae.push(format!("!{{x}}: AX ({{x}} | {a0})")),
+            1 => formulae.push(format!("\\bind {{y}}:  (AX ({{y}} | {a0}))")),
+            _ => {}
+        }
+        formulae.push(format!("EF {a0}"));
+        let zpath = scratch(dir, &format!("an{i}.zip"));
+        let r = guarded(std::panic::AssertUnwindSafe(|| {
+            biodivine_hctl_model_checker::analysis::analyse_formulae(&xg0.bn, formulae.clone(), biodivine_hctl_model_checker::result_print::PrintOptions::NoPrint, Some(zpath.clone()), None)
+        }));
+        out.count("analyse_archive");
+        if !matches!(r, Ok(Ok(()))) {
+            out.oracle(false, "C16", "analyse_formulae failed on valid formulae", &format!("{name} {formulae:?}"));
+            continue;
+        }
+        let entries = zip_entries(&zpath);
+        let bdds = entries.iter().filter(|(n, _)| n.ends_with(".bdd")).count();
+        out.oracle(bdds == formulae.len(), "C16", "archive of analyse_formulae does not have one entry per formula", &format!("{name} {formulae:?}: {bdds} entries"));
+        let ftxt = entries.iter().find(|(n, _)| n == "formulae.txt").map(|(_, c)| c.clone()).unwrap_or_default();
+        let lines: Vec<String> = ftxt.lines().map(|x| x.to_string()).collect();
+        out.oracle(lines == formulae, "C16", "formulae.txt of analyse_formulae is not the formula list", &format!("{formulae:?} vs {lines:?}"));
+        // the graph the routine used: as many variable sets as the deepest formula needs
+        let fs: Vec<&str> = formulae.iter().map(|x| x.as_str()).collect();
+        let kmax = fs
+            .iter()
+            .filter_map(|f| biodivine_hctl_model_checker::preprocessing::parser::parse_and_minimize_hctl_formula(xg0.graph.symbolic_context(), f).ok())
+            .map(|t| crate::front::quant_depth(&t))
+            .max()
+            .unwrap_or(0);
+        let Ok(xg) = Xg::new(name, aeon, kmax) else { continue };
+        if let (Ok(loaded), Ok(expect)) = (load_bdd_bundle(&zpath, xg.graph.symbolic_context()), model_check_multiple_formulae_dirty(fs.clone(), &xg.graph)) {
+            for (j, e) in expect.iter().enumerate() {
+                let same = loaded.get(&format!("formula-{j}")).map(|x| x == e).unwrap_or(false);
+                out.oracle(same, "C16", "entry formula-i of the archive of analyse_formulae is not the set of line i", &format!("{name} {formulae:?} i={j}"));
+            }
+        } else {
+            out.oracle(false, "C16", "archive of analyse_formulae cannot be reloaded", &format!("{name} {formulae:?}"));
+        }
+        let _ = std::fs::remove_file(&zpath);
+    }
     out.finish();
 }
 
